@@ -3,6 +3,7 @@ package harness
 import (
 	"fmt"
 	"sort"
+	"strings"
 	"time"
 
 	"github.com/jmsadair/raft"
@@ -111,7 +112,7 @@ type Cluster struct {
 // RunStats are counters reported in the evidence.
 type RunStats struct {
 	Crashes, Restarts, Partitions, Heals, ClockJumps, Stalls, TornWrites, LostUnsyncedFiles int64
-	CrashAtOp, CrashNow, DiskErrors, StopStarts, Redeliveries                               int64
+	CrashAtOp, CrashNow, DiskErrors, StopStarts, Redeliveries, LinkFlaps                               int64
 	RestartFailures                                                                          int64
 	OpsInvoked, OpsOK, OpsFailed, OpsTimeout, OpsKilled                                      int64
 	WritesOK, LinReadsOK, LeaseReadsOK                                                      int64
@@ -321,6 +322,22 @@ func (c *Cluster) onDiskCrash(n *Node) {
 	if n.Inc == nil {
 		return
 	}
+	// Tabulate where the crash landed: operation kind x file class x phase (C14 evidence).
+	file := "other"
+	switch p := n.FS.LastOpPath; {
+	case strings.Contains(p, "tmp-snapshot") || strings.Contains(p, "/snapshots/"):
+		file = "snapshot"
+	case strings.Contains(p, "/log/tmp"):
+		file = "log-tmp"
+	case strings.Contains(p, "/log/"):
+		file = "log"
+	case strings.Contains(p, "/state/tmp"):
+		file = "state-tmp"
+	case strings.Contains(p, "/state/"):
+		file = "state"
+	}
+	phase := [...]string{"before", "after", "torn"}[n.FS.CrashPh%3]
+	c.Stats.CrashKinds["at:"+n.FS.LastOpKind+":"+file+":"+phase]++
 	c.crashNode(n, "storage-op")
 }
 
@@ -346,6 +363,15 @@ func (c *Cluster) onProcExit(inc *Incarnation, code int, stack string) {
 			c.Net.fail(inc.inflight[id], "peer exited")
 		}
 		inc.inflight = map[uint64]*Msg{}
+		if c.Cfg.AutoRestartMs > 0 && !c.healing {
+			d := c.faultRng.Range(1, int64(c.Cfg.AutoRestartMs)) * 1_000_000
+			c.Sim.After(d, func() {
+				if n.Inc == nil && !c.healing {
+					c.Stats.Restarts++
+					c.startNode(n, nil)
+				}
+			})
+		}
 	}
 }
 
